@@ -147,6 +147,19 @@ func (ctx *dynamicHeaderReader) setAndExpandLitLenHuffCode() error {
 	if max > (1 << maxHuffTreeDepth) {
 		return errInvalidBlock
 	}
+	if max != (1 << maxHuffTreeDepth) {
+		// An incomplete code: like compress/flate, only the degenerate cases (no
+		// code at all, or a single one-bit code) are let through. Anything else
+		// would leave unassigned bit patterns to whatever an earlier block or
+		// stream left in the literal/length table.
+		total := uint32(0)
+		for i := 1; i <= maxHuffTreeDepth; i++ {
+			total += uint32(ctx.litCount[i])
+		}
+		if !(total == 0 || (total == 1 && ctx.litCount[1] == 1)) {
+			return errInvalidBlock
+		}
+	}
 
 	copy(ctx.litCount[:maxLitLenCount], ctx.litExpandCount[:])
 
